@@ -1,7 +1,6 @@
 package handler
 
 import (
-	"bytes"
 	"errors"
 	"fmt"
 	"io"
@@ -232,17 +231,23 @@ func (h *Handler) HandleReadFile(ctx *Context, limit uint32, offset uint64, wr s
 		return fmt.Errorf("seek failed: %w", err)
 	}
 
-	var buf bytes.Buffer
-
-	n, err := buf.ReadFrom(io.LimitReader(ctx.State.ROFile, int64(limit)))
+	// Amount of data must be announced before the data itself. It's taken from file size
+	// instead of buffering the data: client-chosen limit (up to 4GiB) must not drive memory usage.
+	info, err := ctx.State.ROFile.Stat()
 	if err != nil {
-		return fmt.Errorf("read failed: %w", err)
+		return fmt.Errorf("stat failed: %w", err)
 	}
+
+	if info.IsDir() {
+		return fmt.Errorf("read failed: is a directory")
+	}
+
+	n := min(int64(limit), max(info.Size()-int64(offset), 0))
 
 	log.DebugContext(ctx, "Read file", slog.Int64("read", n))
 
 	wr.WriteHeader(int32(n))
-	_, err = buf.WriteTo(wr)
+	_, err = h.Copier.CopyN(wr, ctx.State.ROFile, n)
 	return err
 }
 
